@@ -43,6 +43,8 @@ pub enum Note {
     MustNotChange { what: &'static str, rule: &'static str },
     /// a client received CONNACK(session present) carrying Session Expiry Interval 0
     Expiry0Resume,
+    /// send() refused a PUBLISH with an error: the step (acquire + refused send) must leave no trace
+    RefusedPublish,
 }
 
 thread_local! {
@@ -604,6 +606,7 @@ fn on_send(m: &mut Mdl, pre: &Mdl, ap: &AP, c: &Call, r: &mut Rules, exp_rel: &m
                     // refused: the exchange never started; the freshly acquired id must be announced free
                     exp_rel.insert(id);
                     r.label("pub.refused");
+                    note(Note::RefusedPublish);
                     if c.errors().contains(&MqttError::ReceiveMaximumExceeded) && pre.st == St::Disc {
                         r.viol("c12.refused-without-connection", pre, format!("PUBLISH refused with ReceiveMaximumExceeded while disconnected: no peer, no Receive Maximum in force (a limit of the closed connection is still applied): {}", c.describe()));
                     }
@@ -1024,6 +1027,15 @@ pub fn after_step<P: Pid>(m: &mut Mdl, pre_m: &Mdl, pre: &VerifState, post: &Ver
                     r.viol("c06.expiry0-wipes-session", pre_m, format!("CONNACK(session present) with Session Expiry Interval 0: the session is present and only ends with this connection, but its state was discarded at once - {} stored packet(s) not retransmitted, in-flight ids {:?} freed without announcement, handled QoS 2 ids {:?} forgotten", m.store.len(), m.ids.iter().filter(|(_, o)| **o != Owner::App).map(|(i, _)| *i).collect::<Vec<_>>(), m.q2_notified));
                     // follow the library so that this one defect is reported once
                     m.new_session();
+                }
+            }
+            Note::RefusedPublish => {
+                // C11: "... the result is only an error event (plus release of the packet's identifier) and the
+                // connection behaves afterwards as if the call had not been made"
+                r.label("c11.refused-publish-checked");
+                if pre != post {
+                    let (names, text) = crate::util::debug_diff(pre, post);
+                    r.viol("c11.refused-publish-state", pre_m, format!("a PUBLISH refused by send() left traces in {names:?}: {text}"));
                 }
             }
             Note::MustNotChange { what, rule } => {
